@@ -70,6 +70,8 @@ type modelRun struct {
 	lo, hi time.Duration
 	adds   int // notifications coalesced into this run
 	first  int // index of the first call served by this run
+	// ambiguous: some notification arrived inside [lo, hi], ie possibly just after the run was released
+	ambiguous bool
 }
 
 // c13Model is client-go's delaying queue for one de-duplicated item: the earliest
@@ -90,6 +92,12 @@ func c13Model(calls []whenCall) []modelRun {
 			continue
 		}
 		cur.adds++
+		if c.ta >= cur.lo {
+			// the arrival may have come just after the pending run was released (the run is due in
+			// [cur.lo, cur.hi]): whether it was coalesced or starts a new run is not determined by the
+			// observation; no "too late" verdict is drawn for the run that follows
+			cur.ambiguous = true
+		}
 		if lo < cur.lo {
 			cur.lo = lo
 		}
@@ -101,6 +109,22 @@ func c13Model(calls []whenCall) []modelRun {
 		runs = append(runs, *cur)
 	}
 	return runs
+}
+
+// graceForLastRun: the run that serves the last notification is due by now; on a loaded machine the
+// queue's goroutines may be late, and lateness is not a violation ("dropped" means it never runs), so
+// wait up to 5 more seconds for it before the queue is shut down.
+func graceForLastRun(mu *sync.Mutex, observed *[]time.Duration, lastCall func() time.Duration) {
+	deadline := time.Now().Add(5 * time.Second)
+	for time.Now().Before(deadline) {
+		mu.Lock()
+		ok := len(*observed) > 0 && (*observed)[len(*observed)-1] >= lastCall()
+		mu.Unlock()
+		if ok {
+			return
+		}
+		time.Sleep(2 * time.Millisecond)
+	}
 }
 
 func sleepUntil(start time.Time, at time.Duration) {
@@ -167,6 +191,11 @@ func execC13(c C13Case) *Failure {
 				q.Add(nil)
 			}
 			sleepUntil(start, arrivals[len(arrivals)-1]+2*interval+wait+20*time.Millisecond)
+			graceForLastRun(&obsMu, &observed, func() time.Duration {
+				lim.mu.Lock()
+				defer lim.mu.Unlock()
+				return lim.calls[len(lim.calls)-1].tb
+			})
 			cancel()
 			<-done
 			lim.mu.Lock()
@@ -193,6 +222,11 @@ func execC13(c C13Case) *Failure {
 				q.AddRateLimited(false)
 			}
 			sleepUntil(start, arrivals[len(arrivals)-1]+2*interval+wait+20*time.Millisecond)
+			graceForLastRun(&obsMu, &observed, func() time.Duration {
+				lim.mu.Lock()
+				defer lim.mu.Unlock()
+				return lim.calls[len(lim.calls)-1].tb
+			})
 			q.ShutDown()
 			<-done
 			cancel()
@@ -202,6 +236,7 @@ func execC13(c C13Case) *Failure {
 		}
 	}
 	runs := c13Model(calls)
+	ambiguous := 0
 	// non-trivial: an arrival coalesced into a pending run, followed by an arrival within one interval after that run
 	nontrivial := false
 	for i, r := range runs {
@@ -224,6 +259,7 @@ func execC13(c C13Case) *Failure {
 	st.Case(c, nontrivial, labels...)
 	st.Count("arrivals", len(calls))
 	st.Count("runs", len(runs))
+	defer func() { st.Count("too_late_verdicts_skipped_arrival_at_run_instant", ambiguous) }()
 	desc := func() string {
 		s := ""
 		for i, cl := range calls {
@@ -248,6 +284,10 @@ func execC13(c C13Case) *Failure {
 			if p := runs[i-1].hi + interval; p > allowed {
 				allowed = p
 			}
+		}
+		if i > 0 && runs[i-1].ambiguous {
+			ambiguous++
+			continue
 		}
 		if r.lo > allowed {
 			return failf("C13:"+c.Limiter+":too-late", "%s limiter, interval %v: the run serving arrival %d is scheduled at %v, later than the remaining interval allows (%v)%s", c.Limiter, interval, r.first, r.lo.Round(10*time.Microsecond), allowed.Round(10*time.Microsecond), desc())
